@@ -89,18 +89,52 @@ Definition too_many_digits (z:Z) : bool :=
   let a := Z.abs z in
   if (Z.log2 a <? 14000)%Z then false else (10 ^ 4300 <=? a)%Z.
 
-(* "%d" % x : the integer that is printed *)
-Definition fmt_d_int (n:num) : res Z :=
-  match n with
-  | NInt z => if too_many_digits z then Crash (s_ "ValueError") else Ok z
-  | NBool b => Ok (b2z b)
-  | NFlt m e => let z := flt_trunc m e in
-                if too_many_digits z then Crash (s_ "ValueError") else Ok z
-  | NNegZero => Ok 0%Z
-  | NInf _ => Crash (s_ "OverflowError")
-  | NNaN => Crash (s_ "ValueError")
+(* hex(z) of Python: 0x / -0x and lower-case digits *)
+Fixpoint pos_bits (p:positive) : list bool :=           (* least significant first *)
+  match p with xH => [true] | xO q => false :: pos_bits q | xI q => true :: pos_bits q end.
+Definition hexchar (a b c d:bool) : ascii :=             (* a = least significant *)
+  let n := ((if a then 1 else 0) + (if b then 2 else 0) + (if c then 4 else 0) + (if d then 8 else 0))%nat in
+  ascii_of_nat (if (n <? 10)%nat then 48 + n else 87 + n).
+Fixpoint nibbles (l:list bool) (acc:str) : str :=
+  match l with
+  | a :: b :: c :: d :: r => nibbles r (hexchar a b c d :: acc)
+  | [a; b; c] => hexchar a b c false :: acc
+  | [a; b] => hexchar a b false false :: acc
+  | [a] => hexchar a false false false :: acc
+  | [] => acc
   end.
-Definition fmt_d (n:num) : res str := do z <- fmt_d_int n; Ok (str_of_Z z).
+Definition hex_of_Z (z:Z) : str :=
+  match z with
+  | Z0 => ["0"]
+  | Zpos p => nibbles (pos_bits p) []
+  | Zneg p => "-" :: nibbles (pos_bits p) []
+  end.
+Definition py_hex (z:Z) : str :=
+  match z with
+  | Zneg p => "-" :: "0" :: "x" :: nibbles (pos_bits p) []
+  | _ => "0" :: "x" :: hex_of_Z z
+  end.
+
+(* int_converters._value_as_str / ints_converters._value_as_str:
+     try: "%d" % x   except (OverflowError, ValueError): hex(x) if isinstance(x, int) else str(x)
+   "%d" fails for an int beyond the digit limit (-> hex) and for inf / nan (-> str).  "%d" % float
+   truncates; it could only fail for a float of more than 4300 digits, which no binary64 value has:
+   the model refuses such an NFlt (NotBinary64) instead of inventing str(x). *)
+Definition fmt_d_ok (n:num) : res unit :=
+  match n with
+  | NFlt m e => if too_many_digits (flt_trunc m e) then Crash (s_ "NotBinary64") else Ok tt
+  | _ => Ok tt
+  end.
+Definition fmt_d (n:num) : res str :=
+  match n with
+  | NInt z => Ok (if too_many_digits z then py_hex z else str_of_Z z)
+  | NBool b => Ok (str_of_Z (b2z b))
+  | NFlt m e => let z := flt_trunc m e in
+                if too_many_digits z then Crash (s_ "NotBinary64") else Ok (str_of_Z z)
+  | NNegZero => Ok (str_of_Z 0)
+  | NInf neg => Ok (if neg then s_ "-inf" else s_ "inf")
+  | NNaN => Ok (s_ "nan")
+  end.
 
 (* as a float: float(x) for ints and bools, identity on floats *)
 Definition as_float (n:num) : res num :=
@@ -307,16 +341,25 @@ Definition truthy (v:pyv) : bool :=
 
 (* whether _value_as_str(x) returns (its text is irrelevant inside an error message) *)
 Definition value_fmt_ok (isint:bool) (n:num) : res unit :=
-  if isint then (do _ <- fmt_d_int n; Ok tt) else (do _ <- as_float n; Ok tt).
+  if isint then fmt_d_ok n else Ok tt.   (* the float family's text never fails to format *)
 
 Section WithOracles.
   Variable pyeval : str -> option evr.
   Variable fmt10g : num -> option str.
 
-  (* "%.10g" % x ; _value_as_str of both converter families *)
+  (* float_converters._value_as_str / floats_converters._value_as_str:
+       try: "%.10g" % x   except OverflowError: try: str(x) except ValueError: hex(x)
+     "%.10g" % x overflows only for an int too large for a float; str(int) fails beyond the digit limit *)
   Definition fmt_g (n:num) : res str :=
-    do f <- as_float n;
-    match fmt10g f with Some s => Ok s | None => Crash (s_ "OracleMissing") end.
+    match n with
+    | NInt z =>
+        match float_of_Z z with
+        | Ok f => match fmt10g f with Some s => Ok s | None => Crash (s_ "OracleMissing") end
+        | _ => Ok (if too_many_digits z then py_hex z else str_of_Z z)
+        end
+    | _ => do f <- as_float n;
+           match fmt10g f with Some s => Ok s | None => Crash (s_ "OracleMissing") end
+    end.
   Definition value_as_str (isint:bool) (n:num) : res str := if isint then fmt_d n else fmt_g n.
 
   Definition number_from_value_string (vs:sfw) (ws:list word) : res nv :=
